@@ -664,3 +664,18 @@ impl Rasterizer {
         self.bounds_left = dot2_to_int(self.width);
     }
 }
+
+#[cfg(raqote_verif)]
+impl Rasterizer {
+    /// Verification hook: true when no edge is queued or active and the
+    /// bounds have their reset values, i.e. nothing is left over from a
+    /// previous use of the rasterizer.
+    pub fn verif_is_idle(&self) -> bool {
+        self.active_edges.is_none()
+            && self.edge_starts.iter().all(|e| e.is_none())
+            && self.bounds_bottom == 0
+            && self.bounds_right == 0
+            && self.bounds_top == dot2_to_int(self.height)
+            && self.bounds_left == dot2_to_int(self.width)
+    }
+}
